@@ -1,3 +1,12 @@
-import DosModel.Model.Util
--- stub: no model driver for this property yet
-def main : IO Unit := Dos.lineLoop (fun _ => "unimplemented")
+/-
+C05 driver: `adv` case lines (go/props/c05) on the member-machine model with the adversarial
+message language of `Model/DkgSim.lean`. The trailing field (the Byzantine member's index) only
+tells the Go oracle whom to leave out of the joint outcome.
+-/
+import DosModel.Model.DkgSim
+
+def main : IO Unit := Dos.lineLoop (fun line =>
+  let w := Dos.words line
+  match w.head? with
+  | some "adv" => Dos.DkgSim.runLine (w.take 5)
+  | _ => "bad-op")
